@@ -101,6 +101,10 @@ def run(ctx):
                 "stencil / table boundaries of the generated updateSM body, odd and even sizes, it 1..4) ; per (case,bunch,row) the plain sum before/after "
                 "apply() on the implementation whenever the theorem's hypotheses (row_ok) or the property's own hypothesis "
                 "(support clear of the border before and after) hold. Non-trivial: interior non-empty support and non-zero offset.")
+    ctx.rule += (" probe stream (harness command kickp): nb 1..4, grids built with filling patterns with and without empty buckets, data written "
+                 "explicitly in every bucket, caches of the input grid (profiles, integral, filling) from an earlier state with empty columns, target grid "
+                 "pre-filled, clamp flag in a third of the cases: output vs model, conservation per row, and the second application with refreshed caches / "
+                 "uniform pattern / other target content must reproduce every cell (C01_kick_apply_every_cell, C01_kick_apply_target_independent).")
     ctx.rule += (" fp cases: both derivation stencils x four FPType variants, n 9..65, nb 1..3, axes with integer / "
                  "half-integer / shifted zero bin, e1 dyadic (exact stream, 3-point: bit equality of table and output) or arbitrary "
                  "float (tolerance stream); table _hinfo compared entry by entry, then outputs; per non-empty interior column the plain "
@@ -111,6 +115,8 @@ def run(ctx):
     coq = vp_coq.full_check("C01", ctx, fams=("kick", "fp", "run", "round"))
     nk = 120 if ctx.quick() else 3000
     cases = kc.gen_cases(ctx, nk) + farshift_cases(ctx, 24 if ctx.quick() else 400) + kc.with_rng(ctx, 101, kc.edge_cases, ctx, 52 if ctx.quick() else 800)
+    # (family st3kick) probe stream: filling patterns with empty buckets over explicit data, stale caches, pre-filled target, clamp flag
+    cases += kc.with_rng(ctx, 103, kc.probe_cases, ctx, 36 if ctx.quick() else 600)
     res = kc.run_cases(ctx, cases)
     dis = []
     for c in cases:
@@ -118,6 +124,7 @@ def run(ctx):
         if d:
             dis.append(dict(case=c.replay(), detail=d[:3], sig=dict(kind="kick", stage="correspondence", dir=c.dir, multibunch=c.nb > 1)))
         oracle_conservation(ctx, c, res[c.cid])
+        kc.oracle_cache_independent(ctx, c, res[c.cid])
     ctx.sample(cases[0].describe())
     ctx.sample(cases[-1].describe())
     fcases = fc.gen_cases(ctx, 160 if ctx.quick() else 2400)
@@ -142,6 +149,9 @@ def run(ctx):
     coq = kc.downgrade_usm(ctx, coq, dis, validated=len(cases) > 0)
     cache_ok = sum(1 for k in ctx.nontrivial if isinstance(k, tuple) and len(k) == 2 and k[1] == "cache-independent") >= 20
     coq = fc.fploop_downgrade(ctx, coq, dis, cache_ok, "whole-grid outputs of every fp case equal to the model's, cache-independence probe")
+    coq = kc.kickloop_downgrade(ctx, coq, dis, kc.probes_evaluated(ctx) >= 20,
+                                "whole-grid outputs of every kick case equal to the model's, probe stream: empty-bucket patterns over explicit data, "
+                                "stale caches, pre-filled target, clamp flag")
     conclude(ctx, coq, dis)
 
 
